@@ -113,16 +113,8 @@ impl Prop for C04 {
             "capi" => {
                 // the same contract at the C API, whose caller buffer is sized num_machines:
                 // deterministic machines (the C API draws from its own random source)
-                let mp = crate::props::c20::deterministic_params();
                 let hp = HistParams { max_calls: 30, max_batch: 8, ..HistParams::default() };
-                return fw_case(0..=6, &mp, &hp, true, 0)
-                    .prop_map(|mut c| {
-                        c.machines = c.machines.into_iter().map(crate::props::c20::clock_independent).collect();
-                        c.max_blocking_frac = Fx(0.0);
-                        c.seed = CAPI_MARK;
-                        c
-                    })
-                    .boxed();
+                return crate::props::capi_case(0..=6, |_| {}, &hp);
             }
             _ => panic!("unknown profile"),
         }
